@@ -467,3 +467,276 @@ VP_REQUIRE_LABELS (inplace_structured_f, C09_STRUCT_REQUIRED, "param_wider_float
 VP_RANDOM (inplace_structured_d, 400000, 8000000, C09_STRUCT_RULE) { inplace_structured_case<double> (c); }
 VP_LABELS (inplace_structured_d, C09_STRUCT_LABELS)
 VP_REQUIRE_LABELS (inplace_structured_d, C09_STRUCT_REQUIRED, "param_narrower_float(float on double matrix)")
+
+// ===================================================================================================================
+// 2c. placement / alignment of the operands (placement_*)
+//     Every in-place form and builder is applied to a matrix (and a parameter block) that lives at an address
+//     aligned for its TYPE (4 resp. 8 bytes) but not for a 16- or 32-byte vector register: placement-constructed
+//     in a 64-byte-aligned raw buffer at byte offsets 4, 8, 12, 20, 36 (float) / 8, 24, 40 (double), and as members
+//     of structs behind a leading scalar.  The result must be bit-identical to the same call on ordinary locals.
+//     Both calls go through one non-inlined function (pl_apply44 / 33 / 22), i.e. the same machine code of the same
+//     library function in the same binary: only the addresses differ.  A crash (aligned vector load / store on such
+//     an address) or a sanitizer report is turned into a violation by the driver.
+// ===================================================================================================================
+#include <new>
+#if defined(__GNUC__) && !defined(__clang__)
+#define C09_NOINLINE __attribute__ ((noinline, noclone))
+#else
+#define C09_NOINLINE __attribute__ ((noinline))
+#endif
+template <class T> struct PlParams
+{
+    Vec3<T>   v3; // translation / scale / shear / Euler angles
+    Vec2<T>   v2;
+    Shear6<T> sh;
+    T         sc;  // uniform scale / scalar shear
+    T         ang; // angle of setRotation / rotate (2-D) / setAxisAngle
+    Vec3<T>   ax;  // axis of setAxisAngle
+};
+enum
+{
+    P44_TRANSLATE,
+    P44_SCALE,
+    P44_SHEAR_V3,
+    P44_SHEAR_S6,
+    P44_ROTATE,
+    P44_SET_TRANSLATION,
+    P44_SET_SCALE_T,
+    P44_SET_SCALE_V3,
+    P44_SET_SHEAR_V3,
+    P44_SET_SHEAR_S6,
+    P44_SET_EULER,
+    P44_SET_AXISANGLE,
+    P33_TRANSLATE,
+    P33_SCALE,
+    P33_SHEAR_SCALAR,
+    P33_SHEAR_V2,
+    P33_ROTATE,
+    P33_SET_ROTATION,
+    P33_SET_SCALE_T,
+    P33_SET_SCALE_V2,
+    P33_SET_TRANSLATION,
+    P33_SET_SHEAR_SCALAR,
+    P33_SET_SHEAR_V2,
+    P22_ROTATE,
+    P22_SCALE,
+    P22_SET_ROTATION,
+    P22_SET_SCALE_T,
+    P22_SET_SCALE_V2,
+    P_NOPS,
+    PL_BUF0 = P_NOPS, // + index of the buffer offset (5 float / 3 double)
+    PL_STRUCT_A = PL_BUF0 + 5,
+    PL_STRUCT_B,
+    PL_STRUCT_C,
+    PL_STRUCT_LOCAL,
+    PL_PARAMS_SHIFTED
+};
+static const char* const PL_OPNAME[P_NOPS] = { "m44-translate", "m44-scale", "m44-shear(Vec3)", "m44-shear(Shear6)", "m44-rotate", "m44-setTranslation", "m44-setScale(T)", "m44-setScale(Vec3)", "m44-setShear(Vec3)", "m44-setShear(Shear6)", "m44-setEulerAngles", "m44-setAxisAngle", "m33-translate", "m33-scale", "m33-shear(scalar)", "m33-shear(Vec2)", "m33-rotate", "m33-setRotation", "m33-setScale(T)", "m33-setScale(Vec2)", "m33-setTranslation", "m33-setShear(scalar)", "m33-setShear(Vec2)", "m22-rotate", "m22-scale", "m22-setRotation", "m22-setScale(T)", "m22-setScale(Vec2)" };
+#define C09_PLACEMENT_OP_LABELS                                                                                        \
+    "m44_translate", "m44_scale", "m44_shear_vec3", "m44_shear_shear6", "m44_rotate", "m44_setTranslation", "m44_setScale_uniform", "m44_setScale_vec", "m44_setShear_vec3", "m44_setShear_shear6", "m44_setEulerAngles", "m44_setAxisAngle", "m33_translate", "m33_scale", "m33_shear_scalar", "m33_shear_vec2", "m33_rotate", "m33_setRotation", "m33_setScale_uniform", "m33_setScale_vec", "m33_setTranslation", "m33_setShear_scalar", "m33_setShear_vec2", "m22_rotate", "m22_scale", "m22_setRotation", "m22_setScale_uniform", "m22_setScale_vec"
+template <class T> C09_NOINLINE static void pl_apply (int op, Matrix44<T>& m, const PlParams<T>& p)
+{
+    switch (op)
+    {
+        case P44_TRANSLATE: m.translate (p.v3); break;
+        case P44_SCALE: m.scale (p.v3); break;
+        case P44_SHEAR_V3: m.shear (p.v3); break;
+        case P44_SHEAR_S6: m.shear (p.sh); break;
+        case P44_ROTATE: m.rotate (p.v3); break;
+        case P44_SET_TRANSLATION: m.setTranslation (p.v3); break;
+        case P44_SET_SCALE_T: m.setScale (p.sc); break;
+        case P44_SET_SCALE_V3: m.setScale (p.v3); break;
+        case P44_SET_SHEAR_V3: m.setShear (p.v3); break;
+        case P44_SET_SHEAR_S6: m.setShear (p.sh); break;
+        case P44_SET_EULER: m.setEulerAngles (p.v3); break;
+        default: m.setAxisAngle (p.ax, p.ang); break;
+    }
+}
+template <class T> C09_NOINLINE static void pl_apply (int op, Matrix33<T>& m, const PlParams<T>& p)
+{
+    switch (op)
+    {
+        case P33_TRANSLATE: m.translate (p.v2); break;
+        case P33_SCALE: m.scale (p.v2); break;
+        case P33_SHEAR_SCALAR: m.shear (p.sc); break;
+        case P33_SHEAR_V2: m.shear (p.v2); break;
+        case P33_ROTATE: m.rotate (p.ang); break;
+        case P33_SET_ROTATION: m.setRotation (p.ang); break;
+        case P33_SET_SCALE_T: m.setScale (p.sc); break;
+        case P33_SET_SCALE_V2: m.setScale (p.v2); break;
+        case P33_SET_TRANSLATION: m.setTranslation (p.v2); break;
+        case P33_SET_SHEAR_SCALAR: m.setShear (p.sc); break;
+        default: m.setShear (p.v2); break;
+    }
+}
+template <class T> C09_NOINLINE static void pl_apply (int op, Matrix22<T>& m, const PlParams<T>& p)
+{
+    switch (op)
+    {
+        case P22_ROTATE: m.rotate (p.ang); break;
+        case P22_SCALE: m.scale (p.v2); break;
+        case P22_SET_ROTATION: m.setRotation (p.ang); break;
+        case P22_SET_SCALE_T: m.setScale (p.sc); break;
+        default: m.setScale (p.v2); break;
+    }
+}
+// the three struct layouts (placed at offset 0 of the 64-byte-aligned buffer, and STRUCT_A also as an ordinary local)
+template <class T, class M> struct PlStructA
+{
+    T           pad;
+    M           m; // at byte 4 / 8
+    Vec3<T>     v;
+    PlParams<T> p;
+};
+template <class T, class M> struct PlStructB
+{
+    T           pad[3];
+    M           m; // at byte 12 / 24
+    T           pad2;
+    PlParams<T> p;
+};
+template <class T, class M> struct PlStructC
+{
+    PlParams<T> p; // 16 scalars = 64 / 128 bytes
+    T           pad;
+    M           m; // at byte 68 / 136
+};
+template <class T> struct PlOffsets;
+template <> struct PlOffsets<float>
+{
+    enum { n = 5 };
+    static int at (int i)
+    {
+        static const int o[5] = { 4, 8, 12, 20, 36 };
+        return o[i];
+    }
+};
+template <> struct PlOffsets<double>
+{
+    enum { n = 3 };
+    static int at (int i)
+    {
+        static const int o[3] = { 8, 24, 40 };
+        return o[i];
+    }
+};
+template <class T, class M> static bool pl_same (const M& a, const M& b) { return std::memcmp (&a, &b, sizeof (M)) == 0; }
+template <class T, class M, int N> static void placement_run (vp::Ctx& c, int op, const M& M0, const PlParams<T>& P0, int where, bool shift)
+{
+    static_assert (sizeof (M) == sizeof (T) * N * N && sizeof (PlParams<T>) == sizeof (T) * 16, "no padding expected");
+    // reference: ordinary locals
+    M           ref = M0;
+    PlParams<T> pr  = P0;
+    pl_apply (op, ref, pr);
+    alignas (64) unsigned char buf[64 + 2 * sizeof (M) + 2 * sizeof (PlParams<T>) + 64];
+    std::memset (buf, 0x5a, sizeof buf);
+    M*           pm = 0;
+    PlParams<T>* pp = 0;
+    PlStructA<T, M> local_a; // (only used for where == n + 3)
+    const int    nb = PlOffsets<T>::n;
+    std::string  wh;
+    if (where < nb)
+    {
+        // matrix at the chosen offset, parameter block directly behind it (shift: one scalar further)
+        int off = PlOffsets<T>::at (where);
+        pm      = new (buf + off) M (M0);
+        pp      = new (buf + off + sizeof (M) + (shift ? sizeof (T) : 0)) PlParams<T> (P0);
+        c.label (PL_BUF0 + where);
+        if (shift) c.label (PL_PARAMS_SHIFTED);
+        wh = "64-byte-aligned buffer + " + std::to_string (off);
+    }
+    else if (where == nb)
+    {
+        PlStructA<T, M>* sa = new (buf) PlStructA<T, M> ();
+        sa->m               = M0;
+        sa->p               = P0;
+        pm                  = &sa->m;
+        pp                  = &sa->p;
+        c.label (PL_STRUCT_A);
+        wh = "struct { T pad; M m; Vec3 v; params p; } at a 64-byte-aligned address";
+    }
+    else if (where == nb + 1)
+    {
+        PlStructB<T, M>* sb = new (buf) PlStructB<T, M> ();
+        sb->m               = M0;
+        sb->p               = P0;
+        pm                  = &sb->m;
+        pp                  = &sb->p;
+        c.label (PL_STRUCT_B);
+        wh = "struct { T pad[3]; M m; T pad2; params p; } at a 64-byte-aligned address";
+    }
+    else if (where == nb + 2)
+    {
+        PlStructC<T, M>* sc = new (buf) PlStructC<T, M> ();
+        sc->m               = M0;
+        sc->p               = P0;
+        pm                  = &sc->m;
+        pp                  = &sc->p;
+        c.label (PL_STRUCT_C);
+        wh = "struct { params p; T pad; M m; } at a 64-byte-aligned address";
+    }
+    else
+    {
+        local_a.m = M0;
+        local_a.p = P0;
+        pm        = &local_a.m;
+        pp        = &local_a.p;
+        c.label (PL_STRUCT_LOCAL);
+        wh = "local struct { T pad; M m; Vec3 v; params p; }";
+    }
+    VP_NOTE (c, TN<T>::n () << " " << PL_OPNAME[op] << " with the matrix in " << wh << " (address mod 32 = " << (unsigned) ((uintptr_t) (const void*) pm & 31) << "); M=" << mstr (M0, N) << " v3=" << vstr (P0.v3, 3) << " v2=" << vstr (P0.v2, 2) << " shear6=(" << P0.sh.xy << " " << P0.sh.xz << " " << P0.sh.yz << " " << P0.sh.yx << " " << P0.sh.zx << " " << P0.sh.zy << ") s=" << P0.sc << " angle=" << P0.ang << " axis=" << vstr (P0.ax, 3));
+    pl_apply (op, *pm, *pp);
+    VP_REQUIRE (c, (pl_same<T, M> (*pm, ref)), std::string ("placement/") + PL_OPNAME[op], TN<T>::n () << " " << PL_OPNAME[op] << " on a matrix in " << wh << " gives " << mstr (*pm, N) << ", on a local " << mstr (ref, N));
+    VP_REQUIRE (c, std::memcmp (pp, &P0, sizeof (PlParams<T>)) == 0 && std::memcmp (&pr, &P0, sizeof (PlParams<T>)) == 0, "placement/parameter-modified", TN<T>::n () << " " << PL_OPNAME[op] << " modified its parameter");
+}
+template <class T> static void placement_case (vp::Ctx& c)
+{
+    vp::Src& s  = c.s;
+    int      op = (int) s.below (P_NOPS);
+    int      wi = (int) s.below (PlOffsets<T>::n + 4);
+    bool     sh = s.coin ();
+    c.label (op);
+    c.nt ();
+    PlParams<T> P;
+    bool        ang3 = op == P44_ROTATE || op == P44_SET_EULER;
+    for (int i = 0; i < 3; ++i)
+        P.v3[i] = ang3 ? gen_angle<T> (s) : gen_param<T> (s);
+    for (int i = 0; i < 2; ++i)
+        P.v2[i] = gen_param<T> (s);
+    T h[6];
+    for (int i = 0; i < 6; ++i)
+        h[i] = gen_param<T> (s);
+    P.sh  = Shear6<T> (h[0], h[1], h[2], h[3], h[4], h[5]);
+    P.sc  = gen_param<T> (s);
+    P.ang = gen_angle<T> (s);
+    int acls;
+    P.ax = gen_axis<T> (s, acls);
+    int  base, eij;
+    bool masked;
+    if (op < P33_TRANSLATE)
+    {
+        Matrix44<T> m;
+        gen_structured<Matrix44<T>, T, 4> (s, m, base, masked, eij);
+        placement_run<T, Matrix44<T>, 4> (c, op, m, P, wi, sh);
+    }
+    else if (op < P22_ROTATE)
+    {
+        Matrix33<T> m;
+        gen_structured<Matrix33<T>, T, 3> (s, m, base, masked, eij);
+        placement_run<T, Matrix33<T>, 3> (c, op, m, P, wi, sh);
+    }
+    else
+    {
+        Matrix22<T> m;
+        gen_structured<Matrix22<T>, T, 2> (s, m, base, masked, eij);
+        placement_run<T, Matrix22<T>, 2> (c, op, m, P, wi, sh);
+    }
+}
+#define C09_PLACEMENT_RULE                                                                                             \
+    "one of the 28 builders / in-place forms (Matrix44 12, Matrix33 11, Matrix22 5) on a structured matrix with parameters / angles / axis from the build_* classes, the matrix and its parameter block (Vec3, Vec2, Shear6, scalars) placement-constructed in a 64-byte-aligned raw buffer at a byte offset that is aligned for the element type but not for 16 / 32 bytes (float: 4, 8, 12, 20, 36; double: 8, 24, 40; parameter block directly behind the matrix or one scalar further), or as members of struct { T pad; M m; Vec3 v; P p; }, struct { T pad[3]; M m; T pad2; P p; }, struct { P p; T pad; M m; } placed at the start of the buffer, or of a local struct; oracle = bit-identical result of the same non-inlined call on ordinary locals, parameters unmodified; every case non-trivial"
+VP_RANDOM (placement_f, 200000, 4000000, C09_PLACEMENT_RULE) { placement_case<float> (c); }
+VP_LABELS (placement_f, C09_PLACEMENT_OP_LABELS, "buffer+4", "buffer+8", "buffer+12", "buffer+20", "buffer+36", "struct_pad_M_V_P", "struct_pad3_M_pad_P", "struct_P_pad_M", "local_struct_pad_M_V_P", "parameter_block_one_scalar_further")
+VP_REQUIRE_LABELS (placement_f, C09_PLACEMENT_OP_LABELS, "buffer+4", "buffer+8", "buffer+12", "buffer+20", "buffer+36", "struct_pad_M_V_P", "struct_pad3_M_pad_P", "struct_P_pad_M", "local_struct_pad_M_V_P", "parameter_block_one_scalar_further")
+VP_RANDOM (placement_d, 200000, 4000000, C09_PLACEMENT_RULE) { placement_case<double> (c); }
+VP_LABELS (placement_d, C09_PLACEMENT_OP_LABELS, "buffer+8", "buffer+24", "buffer+40", "(unused)", "(unused)", "struct_pad_M_V_P", "struct_pad3_M_pad_P", "struct_P_pad_M", "local_struct_pad_M_V_P", "parameter_block_one_scalar_further")
+VP_REQUIRE_LABELS (placement_d, C09_PLACEMENT_OP_LABELS, "buffer+8", "buffer+24", "buffer+40", "struct_pad_M_V_P", "struct_pad3_M_pad_P", "struct_P_pad_M", "local_struct_pad_M_V_P", "parameter_block_one_scalar_further")
